@@ -258,4 +258,71 @@ Section Engine.
           apply String.eqb_eq in Ey. subst y. rewrite Enx. reflexivity.
         * cbn. rewrite String.eqb_sym, Enx. exact Hn.
   Qed.
+
+  (* ---------------------------------------------------------------- *)
+  (* the generic relation lemma (C01, C02, C13, C15 are instances)        *)
+
+  Section RunRel.
+    Variable R : string -> col -> col -> Prop.
+
+    Definition env_rel (e1 e2 : tbl) : Prop :=
+      forall x, match tget x e1, tget x e2 with
+                | Some a, Some b => R x a b
+                | None, None => True
+                | _, _ => False
+                end.
+
+    (* argument lists related name by name *)
+    Fixpoint args_rel (xs : list string) (cs1 cs2 : list col) : Prop :=
+      match xs, cs1, cs2 with
+      | [], [], [] => True
+      | x :: r, a :: r1, b :: r2 => R x a b /\ args_rel r r1 r2
+      | _, _, _ => False
+      end.
+
+    Definition outcome_rel (x : string) (r1 r2 : res col) : Prop :=
+      match r1, r2 with
+      | Ok a, Ok b => R x a b
+      | Err _, Err _ => True
+      | _, _ => False
+      end.
+
+    (* one step: related inputs give related outputs, or both runs fail *)
+    Definition node_ok (n : node) : Prop :=
+      forall cs1 cs2, args_rel (nargs n) cs1 cs2 -> outcome_rel (nm n) (nop n cs1) (nop n cs2).
+
+    Lemma get_all_rel xs e1 e2 : env_rel e1 e2 ->
+      match get_all xs e1, get_all xs e2 with
+      | Ok cs1, Ok cs2 => args_rel xs cs1 cs2
+      | Err _, Err _ => True
+      | _, _ => False
+      end.
+    Proof.
+      intro He. induction xs as [|x r IH]; cbn; [exact I|].
+      specialize (He x). destruct (tget x e1) as [a|], (tget x e2) as [b|]; try contradiction; [|exact I].
+      destruct (get_all r e1) as [cs1|], (get_all r e2) as [cs2|]; try contradiction; cbn; auto.
+    Qed.
+
+    Lemma env_rel_cons e1 e2 x a b : env_rel e1 e2 -> R x a b -> env_rel ((x, a) :: e1) ((x, b) :: e2).
+    Proof.
+      intros He Hr y. cbn. destruct (String.eqb y x) eqn:E; [|apply He].
+      apply String.eqb_eq in E. subst y. exact Hr.
+    Qed.
+
+    Theorem run_rel : forall S e1 e2,
+      (forall n, In n S -> node_ok n) -> env_rel e1 e2 ->
+      match run S e1, run S e2 with
+      | Ok t1, Ok t2 => env_rel t1 t2
+      | Err _, Err _ => True
+      | _, _ => False
+      end.
+    Proof.
+      induction S as [|n r IH]; intros e1 e2 Hn He; cbn [run]; [exact He|].
+      unfold step. pose proof (get_all_rel (nargs n) e1 e2 He) as Hg.
+      destruct (get_all (nargs n) e1) as [cs1|], (get_all (nargs n) e2) as [cs2|]; try contradiction; cbn [bind]; [|exact I].
+      pose proof (Hn n (or_introl eq_refl) cs1 cs2 Hg) as Ho. unfold outcome_rel in Ho.
+      destruct (nop n cs1) as [a|], (nop n cs2) as [b|]; try contradiction; cbn [bind]; [|exact I].
+      apply IH; [intros m Hm; apply Hn; right; exact Hm | apply env_rel_cons; assumption].
+    Qed.
+  End RunRel.
 End Engine.
